@@ -64,7 +64,11 @@ def run(tier, seed, report):
     stats = {"cases": 0, "distinct": set()}
     samples = []
     seen = set()
-    pids_pool = ["p", "pq", "doi:10.5063/F1/x", "../../etc/passwd", "ünï©ode-\U0001F600", "a" * 300, "-rf", ".hidden"]
+    # identifiers are opaque strings even when they happen to name something: an existing file (absolute, and relative
+    # to the working directory), an existing directory
+    here = os.path.abspath(__file__)
+    pids_pool = ["p", "pq", "doi:10.5063/F1/x", "../../etc/passwd", "ünï©ode-\U0001F600", "a" * 300, "-rf", ".hidden",
+                 here, os.path.relpath(here), os.path.dirname(here)]
     fmts_pool = [None, "http://ns/f#1", "f/../g", "", " lead", "trail\n", "\ttab both "]
     for (d, w, alg) in grid:
         cfg = dict(depth=d, width=w, store_alg=alg)
